@@ -35,6 +35,11 @@ def inline_silent_rules(expr: Expression, rules: Mapping[str, Rule]) -> Expressi
     if isinstance(expr, Identifier):
         # A reference to an undefined rule is left alone.
         rule = rules.get(expr.value)
-        if rule and rule.modifier & SILENT and rule.name not in TRIVIA_RULES:
+        if (
+            rule
+            and rule.modifier & SILENT
+            and rule.name not in TRIVIA_RULES
+            and not expr.tag  # `#tag = silent_rule` tags a pair inside the rule.
+        ):
             return rule.expression
     return expr
